@@ -38,6 +38,8 @@ def run_one(prop: str, tier: str, repo_root: str | None = None) -> int:
     except Exception as e:  # a crash of the analyser is never a violation
         traceback.print_exc()
         err = f"analyser crashed: {type(e).__name__}: {e}"
+    if ctx.deferred_errors:
+        err = "; ".join(([err] if err else []) + ctx.deferred_errors)
     try:
         return finish(ctx, mod.EXPLANATION, mod.RULE_TEXT, err)
     except Exception as e:
